@@ -257,6 +257,7 @@ def run_case(ctx, rng, job):
     if ctx.case == 0:
         registry_hook(ctx, rng)
         class_objects(ctx)
+        reentrant_hooks(ctx)
 
 
 def registry_hook(ctx, rng):
@@ -360,5 +361,67 @@ def class_objects(ctx):
                             ctx.violation('adaptation-order-class-object',
                                           {'case': [kind, provided, ''.join(hooks), alt], 'expected_log': elog, 'log': list(log),
                                            'expected': eout[0], 'got': [got[0], repr(got[1])[:120]]}, abort=False)
+    finally:
+        zi.adapter_hooks[:] = saved
+
+
+def reentrant_hooks(ctx):
+    """Hooks that adapt something else themselves before answering (what a registry's adapter_hook does when a factory
+    adapts its argument): the nested adaptation runs the whole hook list for *its* arguments, and afterwards the outer
+    adaptation must go on with the outer (interface, object) - hook N+1 is still called as hook(I, obj)."""
+    saved = list(zi.adapter_hooks)
+    try:
+        seqs = [h for n in (2, 3) for h in itertools.product('NVRE', repeat=n) if 'E' in h]
+        for hooks in seqs:
+            for alt in ('absent', 'given'):
+                log = []
+                mod = util.fresh_module()
+                iface = InterfaceClass('IT', (Interface,), {}, __module__=mod)
+                inner = InterfaceClass('IInner', (Interface,), {}, __module__=mod)
+                obj, obj2 = type('Obj', (object,), {})(), type('Obj2', (object,), {})()
+                state = {'alt': object(), 'hook_values': [object() for _ in hooks],
+                         'hook_excs': [Marker('hook%d' % n) for n in range(len(hooks))], 'bad_args': []}
+                hs = []
+                for n, h in enumerate(hooks):
+                    def hook(i, o, n=n, h=h):
+                        if i is inner and o is obj2:
+                            log.append('nested-hook%d' % n)
+                            return None
+                        log.append('hook%d' % n)
+                        if i is not iface or o is not obj:
+                            state['bad_args'].append((n, getattr(i, '__name__', repr(i)), type(o).__name__))
+                        if h == 'E':
+                            if inner(obj2, None) is not None:
+                                state['bad_args'].append((n, 'nested adaptation returned something'))
+                            return None
+                        if h == 'V':
+                            return state['hook_values'][n]
+                        if h == 'R':
+                            raise state['hook_excs'][n]
+                        return None
+                    hs.append(hook)
+                zi.adapter_hooks[:] = hs
+                # reference
+                elog, eout = [], None
+                for n, h in enumerate(hooks):
+                    elog.append('hook%d' % n)
+                    if h == 'E':
+                        elog.extend('nested-hook%d' % m for m in range(len(hooks)))
+                    elif h == 'V':
+                        eout = ('return', state['hook_values'][n])
+                        break
+                    elif h == 'R':
+                        eout = ('raise', state['hook_excs'][n])
+                        break
+                if eout is None:
+                    eout = ('return', state['alt']) if alt == 'given' else ('could-not-adapt',)
+                got = observe((lambda: iface(obj, state['alt'])) if alt == 'given' else (lambda: iface(obj)))
+                ctx.ev()
+                ctx.count('reentrant_hook_cases')
+                if not (matches(eout, got, obj, iface) and log == elog and not state['bad_args']):
+                    ctx.violation('adaptation-order-reentrant-hooks',
+                                  {'hooks': ''.join(hooks), 'alt': alt, 'expected_log': elog, 'log': list(log),
+                                   'wrong_arguments': state['bad_args'][:3], 'expected': eout[0],
+                                   'got': [got[0], repr(got[1])[:120]]}, abort=False)
     finally:
         zi.adapter_hooks[:] = saved
